@@ -174,6 +174,12 @@ def probes(rng, w, max_height, naddr, heavy=False, mode=None):
             lim = rng.choice([0, 0, 1, 2, 3])
             out.append(q("utxos", addr=a, mc=mc, mode=m, limit=lim))
             out.append(q("balance", addr=a, mc=mc, mode=rng.choice(["update", "query"])))
+    # other spellings of the same address (upper-case bech32 is the same address; mixed case, a broken checksum
+    # and surrounding blanks are malformed): deterministic, no draw from the generator's stream
+    a0 = addrs[0]
+    for sp in ("upper", "mixed", "badsum", "space"):
+        out.append(q("utxos", addr={"id": a0, "sp": sp}, mc=-1, mode="query" if sp == "mixed" else "update", limit=0))
+        out.append(q("balance", addr={"id": a0, "sp": sp}, mc=1 if sp == "upper" else -1, mode="update"))
     H = max_height + 2
     ranges = [(0, -1)]
     for _ in range(4 if heavy else 2):
